@@ -492,6 +492,12 @@ def s10(ctx, rid, only_sync=True):
                         cid = f.locals[l]['a'][0]
                         if any(x.endswith('::fsyncdata') or x.endswith('::sync_all') for x in L.get(cid, ())):
                             return True
+                    # a named async fn handed to spawn: `tokio::spawn(fsync_data_task(inner))`
+                    for o in (core.origins(f, a) if l is not None else []):
+                        if o.kind == 'call':
+                            for t in prog.resolve(o.data):
+                                if t in prog.fns and any(x.endswith('::fsyncdata') or x.endswith('::sync_all') for x in set(L.get(t, ())) | set(L.get(t + '::{closure#0}', ()))):
+                                    return True
                 return False
             sps = [c for c in sps if reaches_sync(c)]
             if not sps:
